@@ -35,12 +35,40 @@ fn main() {
     // i18n loader reads the locale once; touch it outside of any case
     let _ = icy_engine::Buffer::new((1, 1));
 
-    let Some(mut prop) = icyverif::props::by_id(prop_id) else {
+    let Some(mut prop) = icyverif::props::by_id(if mode == "miri-inputs" { "C19" } else { prop_id }) else {
         eprintln!("unknown property {prop_id}");
         std::process::exit(2);
     };
     let mut ctx = Ctx::new(prop_id, tier, seed, shard, nshards, plain, journal);
     match mode {
+        "miri-inputs" => {
+            // inputs for `vmiri icy <dir>`
+            let dir = std::path::PathBuf::from(prop_id);
+            std::fs::create_dir_all(&dir).expect("mkdir");
+            let mut buf = icy_engine::Buffer::new((3, 1));
+            buf.layers[0].set_char((0, 0), icy_engine::AttributedChar::new('\u{1F600}', icy_engine::TextAttribute::default()));
+            buf.layers[0].properties.title = "t\u{2603}".into();
+            let mut o = icy_engine::SaveOptions::new();
+            o.lossles_output = true;
+            let bytes = buf.to_bytes("icy", &o).expect("save icy");
+            std::fs::write(dir.join("icy_ok.bin"), &bytes).expect("write");
+            let mut chunks = icyverif::files::png_split(&bytes).expect("png");
+            for c in chunks.iter_mut() {
+                if let Some((kw, mut payload)) = icyverif::files::ztxt_decode(c) {
+                    if kw == "LAYER_0" {
+                        payload[4] = 0xFF; // first title byte: invalid UTF-8
+                        let title_len = u32::from_le_bytes(payload[0..4].try_into().unwrap()) as usize;
+                        let cell = 4 + title_len + 1 + 4 + 1 + 4 + 4 + 1 + 8 + 8 + 2 + 8;
+                        if cell + 6 <= payload.len() {
+                            payload[cell + 2..cell + 6].copy_from_slice(&0xD800u32.to_le_bytes());
+                        }
+                        *c = icyverif::files::ztxt_encode(&kw, &payload);
+                    }
+                }
+            }
+            std::fs::write(dir.join("icy_bad.bin"), icyverif::files::png_join(&chunks)).expect("write");
+            println!("ok");
+        }
         "count" => {
             let mut info = prop.meta(&ctx);
             if !info.is_object() {
